@@ -2,6 +2,7 @@ package main
 
 import (
 	"fmt"
+	"go/constant"
 	"go/token"
 	"go/types"
 	"sort"
@@ -360,6 +361,22 @@ func leavesOf(v ssa.Value) []phiLeaf {
 	walk = func(v ssa.Value, from, at *ssa.BasicBlock) {
 		ph, ok := v.(*ssa.Phi)
 		if !ok {
+			// a member of a local struct variable: its reaching definitions are its leaves
+			if ld, isLd := v.(*ssa.UnOp); isLd && ld.Op == token.MUL && !seen[v] {
+				if _, isLocal := localMemberOf(ld.X); isLocal {
+					seen[v] = true
+					if sv, ok := forwardLoad(ld); ok {
+						walk(sv, from, at)
+						return
+					}
+					if ms := memoryMerge(ld); len(ms) > 1 {
+						for _, m := range ms {
+							walk(m.val, m.from, m.at)
+						}
+						return
+					}
+				}
+			}
 			out = append(out, phiLeaf{v, from, at})
 			return
 		}
@@ -771,6 +788,15 @@ func enumOnEdge(in map[*ssa.BasicBlock]enumSet, isDisc func(v ssa.Value) bool, f
 // root value, same member chain) in the load's block or in its chain of
 // unique predecessors, with no intervening call that receives the root.
 func forwardLoad(ld *ssa.UnOp) (ssa.Value, bool) {
+	// a member of a local struct variable that does not escape: its single reaching definition
+	if defs, ok := memLeaves(ld); ok && len(defs) == 1 && defs[0].from == nil {
+		if defs[0].val != nil {
+			return defs[0].val, true
+		}
+		if z := zeroConstOf(ld.Type()); z != nil {
+			return z, true
+		}
+	}
 	lp, ok := pathOf(ld)
 	if !ok || len(lp.Elems) == 0 {
 		return nil, false
@@ -974,6 +1000,21 @@ func storeBefore(ld *ssa.UnOp, b *ssa.BasicBlock, idx int) (ssa.Value, bool) {
 // memoryMerge: ld sits in (or below, along unique predecessors) a join block and
 // every predecessor path of that join stores the location.
 func memoryMerge(ld *ssa.UnOp) []phiLeaf {
+	// a member of a non-escaping local struct assigned on several branches
+	if defs, ok := memLeaves(ld); ok && len(defs) > 1 {
+		var out []phiLeaf
+		for _, d := range defs {
+			v := d.val
+			if v == nil {
+				v = zeroConstOf(ld.Type())
+				if v == nil {
+					return nil
+				}
+			}
+			out = append(out, phiLeaf{val: v, from: d.from, at: d.at})
+		}
+		return out
+	}
 	b := ld.Block()
 	idx := instrIndex(ld)
 	for hops := 0; hops < 12; hops++ {
@@ -1124,4 +1165,22 @@ func isMinFunction(f *ssa.Function) bool {
 		}
 	}
 	return ok && n >= 2
+}
+
+// zeroConstOf: the zero value of a basic or pointer-like type as a constant.
+func zeroConstOf(t types.Type) ssa.Value {
+	switch u := t.Underlying().(type) {
+	case *types.Basic:
+		switch {
+		case u.Info()&types.IsInteger != 0:
+			return ssa.NewConst(constant.MakeInt64(0), t)
+		case u.Info()&types.IsBoolean != 0:
+			return ssa.NewConst(constant.MakeBool(false), t)
+		case u.Info()&types.IsString != 0:
+			return ssa.NewConst(constant.MakeString(""), t)
+		}
+	case *types.Pointer, *types.Interface, *types.Slice, *types.Map, *types.Chan, *types.Signature:
+		return ssa.NewConst(nil, t)
+	}
+	return nil
 }
